@@ -443,4 +443,4 @@ SELFTEST += [
 ]
 
 LEVEL_TEXT += " Also (R5): add_header appends and HttpError::into_response moves the error's header map into the response as a whole, so every collected Allow value reaches the wire."
-LEVEL_TEXT += ' Also (R6 = C01.R3): the 404/405 decision reads the method table of the node the walk (trailing-wildcard step included) ended on.'
+LEVEL_TEXT += ' Also (R6 = C01.R3): the 404/405 decision reads the method table of the node the walk (trailing-wildcard step included) ended on. Also (R7 = C01.R4): insert and lookup_route key the method table identically.'
